@@ -221,6 +221,7 @@ pub struct WireView {
     pub packets: Vec<Pk>,
     pub pings: usize,
     pub n_written: usize,
+    pub acked: usize,
 }
 
 pub struct Sim {
@@ -242,6 +243,8 @@ pub struct Sim {
     pub op_results: BTreeMap<usize, Value>,
     pub ctx_results: Vec<Value>,
     pub items: BTreeMap<usize, Vec<Value>>,
+    pub step_no: u64,
+    pub sched_seed: u64,
 }
 
 pub fn install_quiet_panic_hook() {
@@ -312,6 +315,8 @@ impl Sim {
             op_results: BTreeMap::new(),
             ctx_results: vec![],
             items: BTreeMap::new(),
+            step_no: 0,
+            sched_seed: 0,
         };
         s.command(Cmd::SetUp(pipe));
         s
